@@ -76,7 +76,11 @@ def mechanism(v, dg):
   if dg:
     if dg.get("alias"):
       return c01_diag.K_ALIAS
+    if dg.get("site"):
+      return c01_diag.K_SITE
     vw = dg.get("view") or {}
+    if vw.get("reuse"):
+      return c01_diag.K_REUSE
     if vw.get("sibling"):
       return c01_diag.K_VIEW
     why = vw.get("why") or dg.get("error") or "no diagnosis"
@@ -134,6 +138,18 @@ def judge(src, trace, res, diag=None):
     if not ok:
       viol.append({"kind": "attr", "name": f"{cname}.{attr}", "via": gname, "declared": pytd_str(t),
                    "declared_in": where, "value": brief(sh)})
+      if diag is not None:
+        from vf.oracle import c01_diag
+        dg = {}
+        try:
+          defs = c01_diag.CAPTURE.get("defs")
+          if res.ctx is not None and defs is not None:
+            st = c01_diag.site_signature(res.ctx, defs, trace, gname)
+            if st:
+              dg["site"] = st
+        except Exception as e:  # pylint: disable=broad-except
+          dg["error"] = f"{type(e).__name__}: {e}"
+        diag[f"{cname}.{attr}"] = dg
   seen_ret = set()
   for (qual, line, sh) in trace["returns"]:
     if "<locals>" in qual or "<lambda>" in qual or "<listcomp>" in qual or "<genexpr>" in qual \
@@ -271,7 +287,7 @@ def classify(src, v):
     return f"unclassified: minimised witness no longer analysable ({r['status']})", None
   for w in r["viol"]:
     if same_item(w, v):
-      dg = (r["diag"] or {}).get(v["name"]) if v["kind"] == "global" else None
+      dg = (r["diag"] or {}).get(v["name"])
       return mechanism(w, dg), dg
   return "unclassified: minimised witness no longer violates", None
 
